@@ -48,6 +48,10 @@ SYNTAX = {
     'numbers': "a[1, 2.5, -3]: 'x' ;\n\nb[k=true, j=null, i=false]: 'y' ;\n\nc[T, +1, +1.5]: 'z' ;\n",
     'numbers-hex': "a[0x1F]: 'x' ;\n",
     'params-path': "a::T: 'x' ;\n\nb[A::B]: 'y' ;\n",
+    # words that begin like a literal of the grammar language (the word boundary decides)
+    'params-literal-prefix': "a::TrueLiteral: 'x' ;\n\nb[NoneType]: 'y' ;\n\nc[kind=nullable, other=falsey]: 'z' ;\n\nd[Trueish, nullx, Falsex]: 'w' ;\n",
+    'names-literal-prefix': "@@keyword :: Nonesuch trueish\n\nNoneRule: 'x' ;\n\ntruerule: NoneRule nullrule:NoneRule ;\n",
+    'directive-literal-prefix': "@@grammar :: NoneSuch\n@@whitespace :: /x/\n@@nameguard :: Truex\n\na: 'x' ;\n",
 }
 # element spellings written next to each other without blanks: where one lexeme ends and the next begins is decided
 # by guards and word boundaries inside single rules of the grammar — the place where a stale reader drifts
